@@ -34,6 +34,8 @@ for r in pkgs.getRootPackage().getDirectDepSteps():
 json.dump(out, sys.stdout)
 """
 
+class HarnessTimeout(RuntimeError): pass
+
 class Project:
     def __init__(self, root=None, prefix='proj-'):
         self.dir = root or tempfile.mkdtemp(prefix=prefix)
@@ -62,11 +64,14 @@ class Project:
         with tempfile.TemporaryFile(mode='w+') as log:
             p = subprocess.Popen([PY, '-c', BOB] + list(args), cwd=cwd or self.dir, env=e, stdin=subprocess.DEVNULL, stdout=log,
                                  stderr=subprocess.STDOUT, start_new_session=True)
+            timed_out = False
             try: rc = p.wait(timeout=timeout)
-            except subprocess.TimeoutExpired: rc = -9
+            except subprocess.TimeoutExpired: rc = -9; timed_out = True
             try: os.killpg(p.pid, signal.SIGKILL)
             except OSError: pass
             log.seek(0)
+            # a run cut off by the harness is no observation of bob: never a witness, the case (or the search) is undecided
+            if timed_out: raise HarnessTimeout('bob %s did not finish within %d s (machine overloaded?): %s' % (' '.join(args[:3]), timeout, log.read()[-200:]))
             return rc, log.read()
     def query(self, sandbox=False, defines=(), env=None):
         e = dict(self.env)
